@@ -78,8 +78,27 @@ Qed.
 Lemma code_structure_ok : structure_ok = true.
 Proof. vm_compute. reflexivity. Qed.
 
+(* one named obligation per setting, so that a failing build names the line of the code that moved *)
+Lemma code_min_version_at_least_tls12 : (tls12 <=? cf_min_version code_config) = true.
+Proof. vm_compute. reflexivity. Qed.          (* tls.Config.MinVersion in startWebsocketServer *)
+Lemma code_requires_ship_subprotocol :
+  cf_sub_check code_config && bytes_eqb (cf_required_proto code_config) ship_proto = true.
+Proof. vm_compute. reflexivity. Qed.          (* conn.Subprotocol() != api.ShipWebsocketSubProtocol in ServeHTTP *)
+Lemma code_ski_length_is_20 : (cf_ski_len code_config =? 20) = true.
+Proof. vm_compute. reflexivity. Qed.          (* len(subjectKeyId) != 20 in cert.SkiFromCertificate *)
+Lemma code_ski_bound_to_key : cf_checks_key code_config = true.
+Proof. vm_compute. reflexivity. Qed.          (* comparison with sha1.Sum of the public key in cert.SkiFromCertificate *)
+Lemma code_outbound_compares_dialled_ski : cf_out_compares code_config = true.
+Proof. vm_compute. reflexivity. Qed.          (* remoteSKI != remoteService.SKI() in connectFoundService *)
+
 Lemma code_config_ok : config_ok code_config = true.
-Proof. vm_compute. reflexivity. Qed.
+Proof.
+  unfold config_ok.
+  rewrite code_min_version_at_least_tls12, code_ski_length_is_20, code_ski_bound_to_key,
+    code_outbound_compares_dialled_ski.
+  pose proof code_requires_ship_subprotocol as H. apply andb_true_iff in H as [H1 H2].
+  rewrite H1, H2. reflexivity.
+Qed.
 
 (* for "generator certificates pass": additionally the client-auth mode asks for a
    certificate without verifying a chain, "ship" is the only server sub-protocol, and the
@@ -155,6 +174,7 @@ Lemma tls_server_some cf ver certs cs :
 Proof.
   unfold tls_server. destruct (ver <? cf_min_version cf) eqn:Ev; [discriminate|].
   apply N.ltb_ge in Ev.
+  destruct ((ver <? tls12) && cf_suites_tls12_only cf); [discriminate|].
   destruct (cf_client_auth cf =? 0); [intros H; inversion H; auto|].
   destruct (((cf_client_auth cf =? 2) || (cf_client_auth cf =? 4)) && is_nil certs); [discriminate|].
   destruct ((3 <=? cf_client_auth cf) && negb (is_nil certs)); [discriminate|].
@@ -361,6 +381,7 @@ Proof.
   { apply ski_from_cert_gen. rewrite Hlen. apply sha1_len20. }
   unfold Cert.accept_inbound, tls_server.
   assert (Ev : ver <? cf_min_version cf = false) by (apply N.ltb_ge; lia). rewrite Ev.
+  assert (Ev12 : ver <? tls12 = false) by (apply N.ltb_ge; lia). rewrite Ev12. cbn [andb].
   assert (Ea : (cf_client_auth cf =? 0) = false /\ (3 <=? cf_client_auth cf) = false).
   { apply orb_true_iff in Hauth as [Ha|Ha]; apply N.eqb_eq in Ha; rewrite Ha; split; reflexivity. }
   destruct Ea as [Ea0 Ea3]. rewrite Ea0, Ea3. cbn [is_nil andb negb]. rewrite andb_false_r. cbn [andb].
@@ -456,12 +477,12 @@ End WithSpec.
 Lemma length_only_accepts_any_ski cf ver offered ski pub :
   config_ok_but_key cf = true -> cf_checks_key cf = false ->
   ((cf_client_auth cf =? 1) || (cf_client_auth cf =? 2)) = true ->
-  cf_server_protos cf = [ship_proto] -> cf_min_version cf <= ver -> In ship_proto offered ->
+  cf_server_protos cf = [ship_proto] -> cf_min_version cf <= ver -> tls12 <= ver -> In ship_proto offered ->
   length ski = 20%nat ->
   accept_inbound cf ver offered [{| ski_ext := Some ski; pubkey := pub |}] = Accept (hex ski)
   /\ accept_outbound cf (hex ski) [{| ski_ext := Some ski; pubkey := pub |}] = OAccept.
 Proof.
-  intros Hok Hk Hauth Hprotos Hver Hin Hl.
+  intros Hok Hk Hauth Hprotos Hver Hver12 Hin Hl.
   unfold config_ok_but_key in Hok. rewrite !andb_true_iff in Hok.
   destruct Hok as [[[[_ Hsub] Hreq] Hlen] Hcmp].
   apply bytes_eqb_eq in Hreq. apply N.eqb_eq in Hlen.
@@ -471,6 +492,7 @@ Proof.
   split.
   - unfold Cert.accept_inbound, tls_server.
     assert (Ev : ver <? cf_min_version cf = false) by (apply N.ltb_ge; lia). rewrite Ev.
+    assert (Ev12 : ver <? tls12 = false) by (apply N.ltb_ge; lia). rewrite Ev12. cbn [andb].
     assert (Ea : (cf_client_auth cf =? 0) = false /\ (3 <=? cf_client_auth cf) = false).
     { apply orb_true_iff in Hauth as [Ha|Ha]; apply N.eqb_eq in Ha; rewrite Ha; split; reflexivity. }
     destruct Ea as [Ea0 Ea3]. rewrite Ea0, Ea3. cbn [is_nil andb negb]. rewrite andb_false_r. cbn [andb].
@@ -503,6 +525,7 @@ End WithSha1.
 (* the pinned tree's configuration: code_config with the key comparison switched off *)
 Definition pinned_config : config := {|
   cf_min_version := cf_min_version code_config; cf_client_auth := cf_client_auth code_config;
+  cf_suites_tls12_only := cf_suites_tls12_only code_config;
   cf_verify_peer := cf_verify_peer code_config; cf_server_protos := cf_server_protos code_config;
   cf_required_proto := cf_required_proto code_config; cf_sub_check := cf_sub_check code_config;
   cf_ski_len := cf_ski_len code_config; cf_checks_key := false;
@@ -523,7 +546,8 @@ Proof.
   assert (H4 : cf_server_protos pinned_config = [ship_proto]) by (vm_compute; reflexivity).
   assert (H5 : cf_min_version pinned_config <= tls12) by (vm_compute; discriminate).
   assert (H6 : In ship_proto [ship_proto]) by (left; reflexivity).
-  destruct (length_only_accepts_any_ski sha1 pinned_config tls12 [ship_proto] s [] H1 H2 H3 H4 H5 H6 Hl)
+  assert (H7 : tls12 <= tls12) by lia.
+  destruct (length_only_accepts_any_ski sha1 pinned_config tls12 [ship_proto] s [] H1 H2 H3 H4 H5 H7 H6 Hl)
     as [Hin Hout].
   exists tls12, [ship_proto], [{| ski_ext := Some s; pubkey := [] |}], (hex s).
   split; [exact Hin|].
